@@ -24,6 +24,9 @@ void h_aggverify(void) {
     unsigned char *aggsig, *msgs; secp256k1_xonly_pubkey *pks; size_t nn; int ret, args_ok, len_ok;
     wide nw = N_(), p = P_();
     __CPROVER_assume(alen <= 32 * (NMAX + 1));
+#ifdef C17_NBOUND
+    __CPROVER_assume(n <= C17_NBOUND);   /* BOUNDED stand-in: the loop over n is unwound instead of closed by its loop contract */
+#endif
     nn = n <= NMAX ? n : 0;     /* for n > NMAX the length can never match: the arrays must not be touched at all */
     INPUT_BUF(aggw, aggsig, alen, 96);
     pks = malloc(nn ? nn * sizeof(*pks) : 1); msgs = malloc(nn ? nn * 32 : 1);
@@ -48,7 +51,11 @@ void h_aggverify(void) {
     if (!args_ok) { __CPROVER_assert(ret == 0 && g_illegal == 1 && verif_c17_xo_n == 0 && g_gen_n == 0, "C17 aggverify: API misuse reports illegal use, returns 0, verifies nothing"); REACH("aggverify API misuse"); return; }
     __CPROVER_assert(g_illegal == 0, "C17 aggverify: no callback on well-formed arguments");
     if (!len_ok) { __CPROVER_assert(ret == 0 && verif_c17_xo_n == 0 && g_gen_n == 0 && verif_c17_fin_n == 0 && verif_c17_whit == 0, "C17 aggverify: aggsig_len != 32*(n+1) is rejected before anything is read");
-        if (alen == 32 * n) REACH("aggverify length for n-1"); if (alen % 32 == 5 && alen / 32 == n + 1) REACH("aggverify length not a multiple of 32"); if (n > NMAX) REACH("aggverify huge n"); return; }
+        if (alen == 32 * n) REACH("aggverify length for n-1"); if (alen % 32 == 5 && alen / 32 == n + 1) REACH("aggverify length not a multiple of 32"); 
+#ifndef C17_NBOUND
+        if (n > NMAX) REACH("aggverify huge n");
+#endif
+        return; }
     if (ret == 1) {
         __CPROVER_assert(verif_c17_xo_n == n && verif_c17_bad == 0 && verif_c17_rej == 0, "C17 aggverify: accept => n lifts, each of exactly x = r_i with even y, each successful; each challenge on (r_i, m_i, 32, pk_i); e_i*P_i, z_i = digest_i mod n (i != 0); hash bytes as specified");
         __CPROVER_assert(verif_c17_fin_n == n && c17_init_n == 1, "C17 aggverify: one randomizer per signature, one running hash initialised once");
@@ -62,9 +69,14 @@ void h_aggverify(void) {
     if (g_gen_n == 1 && verif_c17_xo_n == n) __CPROVER_assert(verif_c17_bad == 0 && verif_c17_rej == 0 && verif_c17_fin_n == n, "C17 aggverify: the final comparison is reached only after n successful, correctly wired iterations");
     if (ret == 1 && n == 0) REACH("aggverify accepts n = 0");
     if (ret == 1 && n == 1) REACH("aggverify accepts n = 1");
+#ifndef C17_NBOUND
     if (ret == 1 && n == 1000000 && gk == 999999 && wpos == 64 + 96 * 999999 + 40) REACH("aggverify accepts n = 10^6");
+    if (ret == 0 && verif_c17_rej == 1 && n > 5) REACH("aggverify rejects on a lift verdict, n > 5");
+#else
+    if (ret == 1 && n == C17_NBOUND && gk == n - 1 && wpos == 64 + 96 * (n - 1) + 40) REACH("aggverify accepts n = bound");
+#endif
     if (ret == 0 && g_gen_n == 1) REACH("aggverify rejects at the final comparison");
     if (ret == 0 && g_gen_n == 0 && verif_c17_xo_n == n && verif_c17_rej == 0) REACH("aggverify rejects s >= n");
-    if (ret == 0 && verif_c17_rej == 1 && n > 5) REACH("aggverify rejects on a lift verdict");
-    if (ret == 0 && gk < n && n > 3 && gk == 2 && be256(aggsig + 32 * gk) >= p) REACH("aggverify rejects r_2 >= p");
+    if (ret == 0 && verif_c17_rej == 1 && n > 1) REACH("aggverify rejects on a lift verdict");
+    if (ret == 0 && gk < n && n > 2 && gk == 1 && be256(aggsig + 32 * gk) >= p) REACH("aggverify rejects r_1 >= p");
 }
